@@ -193,6 +193,14 @@ def handler(p):
                     return gen()
 
             def snapshot(it):
+                # internal buffers are read for information only: a restructured iterator without these attributes
+                # is not an error (the run after the abandoned passes is what the statement constrains)
+                try:
+                    return snapshot_(it)
+                except (AttributeError, TypeError, KeyError):
+                    return None
+
+            def snapshot_(it):
                 if cfg['pooling'] == 0:
                     groups = [[fid(f) for f in m.fragments] for m in it.molecules]
                 else:
